@@ -25,6 +25,7 @@ RULE = (
     "Every evaluate result is compared with the pristine result of the same (configuration, input) computed once on a new "
     "evaluator in two separate fresh processes (opposite orders). Non-trivial = an evaluate step whose result has tp > 0 "
     "preceded by at least one other step; distinct = hash of (history prefix, configuration, input, options)."
+    ' Further families: fork after a real-pool evaluation and evaluation inside a daemonic worker, both in fresh interpreters that never saw the serial stand-in; inputs in non-native byte order; keys and saved configuration compared with a never-used twin evaluator.'
 )
 ASSUMPTIONS = [
     "computation_time is excluded from the comparison (timing); everything else a result reports is compared",
